@@ -24,6 +24,7 @@ type Tape struct {
 	Out    []byte     // everything handed out so far
 	Reads  []TapeRead // every Read call
 	FailAt int        // read index at which to fail (-1 never)
+	MaxRead int       // >0: a Read call hands out at most this many bytes (short reads without an error are legal for an io.Reader)
 	Yield  func(what string)
 	// Passthrough records the real CSPRNG instead of generating.
 	Passthrough io.Reader
@@ -46,6 +47,9 @@ func (t *Tape) Read(p []byte) (int, error) {
 		t.Reads = append(t.Reads, TapeRead{len(t.Out), n})
 		t.Out = append(t.Out, p[:n]...)
 		return n, err
+	}
+	if t.MaxRead > 0 && len(p) > t.MaxRead {
+		p = p[:t.MaxRead]
 	}
 	b := t.rng.Bytes(len(p))
 	copy(p, b)
